@@ -127,7 +127,13 @@ def run(ctx: Ctx) -> None:
             r.viol(f"{key}|{short(w.where)}:{w.text}", w.origin, f"{key} can write {w.describe()}", list(w.chain))
     r.floor(2)
 
-    r = ctx.rule("R13.done", "definition of done")
+    done_rule(ctx, "R13.done")
+    load_rules(ctx)
+
+
+def done_rule(ctx: Ctx, rid: str) -> None:
+    m = ctx.model
+    r = ctx.rule(rid, "definition of done")
     f = m.method("Pipeline", "is_done", own=True)
     rets = [n for n in walk_no_nested(f.node) if isinstance(n, ast.Return)]
     ok = False
@@ -165,8 +171,6 @@ def run(ctx: Ctx) -> None:
         facts_of(rets[0].value, True) == {("None is self.loaded_instruction", False)}
     r.check(ok, "ToyArchitecturalState.instruction_loaded", f.loc(),
             "instruction_loaded is not `self.loaded_instruction is not None`")
-
-    load_rules(ctx)
 
 
 def load_rules(ctx: Ctx, rid: str = "R13.load") -> None:
